@@ -23,8 +23,10 @@ C04_ExactUp   == (J /\ ~Conc) => \A k \in 1..Len(T.app) : (T.app[k].len = 0 /\ T
 \* - response direction
 \*   (every execution of the server application yields a new representation, announced by its ETag: the body handed
 \*    over is ONE of the representations produced, whole - never a mixture, never zeros in place of bytes)
+\*   (directed "again" schedules: representations from the second on are l2b bytes long)
+DownLen(v) == IF v >= 2 /\ T.p.l2b > 0 THEN T.p.l2b ELSE T.p.l2
 C04_ExactDown == (J /\ ~Conc /\ Success) => \A k \in 1..Len(T.got) : (T.got[k].len = 0 /\ T.p.l2 = 0)
-                                       \/ (FileIs(File(T.got[k]), T.p.l2) /\ OneVersion(File(T.got[k])) /\ File(T.got[k])[1][4] \in 1..Len(T.app))
+                                       \/ (Len(File(T.got[k])) > 0 /\ OneVersion(File(T.got[k])) /\ File(T.got[k])[1][4] \in 1..Len(T.app) /\ FileIs(File(T.got[k]), DownLen(File(T.got[k])[1][4])))
 \* "with the message's other options preserved"
 C04_Options   == (J /\ ~Conc) =>
                    ((\A k \in 1..Len(T.app) : (T.app[k].query /\ Has(T.app[k].opts, 11) /\ (T.p.l > 0 => T.app[k].cf = 42)))
@@ -87,7 +89,7 @@ MF == RunActs(S0(PP), Applied, 1)
 SameMsg(m, r) == /\ m.dir = r.dir /\ m.kind = r.kind /\ m.b1 = r.b1 /\ m.b2 = r.b2 /\ (m.kind = "resp" => m.ver = r.ver)
                  /\ (m.pay[2] - m.pay[1]) = r.plen
                  /\ (r.plen >= 4 /\ r.pay[1] >= 0) => <<r.pay[1], r.pay[2]>> = m.pay
-K04_Conforms  == (J /\ T.op = "layer" /\ ~T.concurrent) => (Len(MF.sent) = Len(T.msgs) /\ \A k \in 1..Len(T.msgs) : SameMsg(MF.sent[k], T.msgs[k]))
+K04_Conforms  == (J /\ T.op = "layer" /\ ~T.concurrent /\ ~T.p.ne /\ T.p.l2b = 0) => (Len(MF.sent) = Len(T.msgs) /\ \A k \in 1..Len(T.msgs) : SameMsg(MF.sent[k], T.msgs[k]))
 \* a fault-free exchange that the specification completes is completed by the code
 K04_Completes == (J /\ ~Conc /\ ~T.faulty /\ T.quiet /\ T.op = "layer" /\ Completed(MF)) => Success
 =============================================================================
